@@ -30,6 +30,22 @@ def const_table(db, path):
             row = {f["n"]: lit_value(f["e"]) for f in n["fields"]}
             row["_line"] = n["l"]
             rows.append(row)
+        elif n.get("k") == "Call" and (callee(n) or "") in db.hir:
+            # a row written as a call of a (const) constructor function whose body is one struct literal over its parameters
+            h = db.hir[callee(n)]
+            lits = [x for x in walk(h["body"]) if x.get("k") == "Struct"]
+            if len(lits) != 1 or len(h.get("params", [])) != len(n["args"]):
+                continue
+            pos = {p_.get("hid"): i for i, p_ in enumerate(h["params"])}
+            row = {}
+            for f in lits[0]["fields"]:
+                e = strip(f["e"])
+                if e.get("k") == "Path" and e.get("res", {}).get("hid") in pos:
+                    row[f["n"]] = lit_value(n["args"][pos[e["res"]["hid"]]])
+                else:
+                    row[f["n"]] = lit_value(f["e"])
+            row["_line"] = n["l"]
+            rows.append(row)
     return rows
 
 
